@@ -23,6 +23,9 @@ deriving Repr
 namespace RB
 variable {α : Type}
 
+/-- `modCap` exactly as written: `((a % b) + b) % b` over `ssize_t` (C++ `%` truncates towards zero) -/
+def modCapI (cap : Nat) (a : Int) : Int := (Int.tmod a cap + cap).tmod cap
+
 /-- `dataIndex(i) = modCap(m_pos + i)` -/
 def phys (b : RB α) (i : Nat) : Nat := (b.pos + i) % b.cap
 
